@@ -8,6 +8,7 @@ import (
 	"net/url"
 	"os"
 	"path/filepath"
+	"regexp"
 	"runtime"
 	"sort"
 	"strings"
@@ -297,9 +298,15 @@ func handlerSource(route string, h handlerSpec) string {
 	return sb.String()
 }
 
-func serverScript(handlers []handlerSpec) string {
+// serverScript builds the server; mw adds a closure middleware in front of every route that keeps a
+// request value in a local across $next and reports it afterwards (its locals, parameters and the
+// $next it received must belong to the request it is serving, like a handler's).
+func serverScript(handlers []handlerSpec, mw ...bool) string {
 	var sb strings.Builder
 	sb.WriteString("<?php\nuse Net\\Http\\Server;\nclass Holder { public $v; }\nfunction joinVals($vs) { $s = ''; foreach ($vs as $x) { $s = $s . $x . ','; } return $s; }\n$server = new Server('127.0.0.1', 0);\n")
+	if len(mw) > 0 && mw[0] {
+		sb.WriteString("$server->middleware(function ($req, $res, $next) {\n    $m = $req->header('X-a');\n    $res->header('X-MW-Before', $m);\n    $next($req, $res);\n    $res->write(';mw=' . $m . '|' . $req->header('X-b'));\n});\n")
+	}
 	for i, h := range handlers {
 		sb.WriteString(handlerSource(fmt.Sprintf("/h%d", i), h))
 	}
@@ -323,6 +330,7 @@ func requestFor(route string, id int) httpReqSpec {
 }
 
 type c11Case struct {
+	MW       bool          `json:"middleware,omitempty"`
 	Cfg      httpCfg       `json:"config"`
 	Handlers []handlerSpec `json:"handlers"`
 	Sources  []string      `json:"sources"`
@@ -348,6 +356,28 @@ func respString(r httpResp) string {
 	return fmt.Sprintf("status=%d headers={%s} body=%q panic=%q", r.Status, strings.Join(hs, "; "), r.Body, r.Panic)
 }
 
+var tagRe = regexp.MustCompile(`r(\d+)[qphc][a-f]`)
+var ridRe = regexp.MustCompile(`rid=r(\d+)`)
+
+// foreignData: every request value echoed in a response carries the tag of the request it came from
+// (requestFor); a response that shows another request's tag did not depend on its own request only.
+func foreignData(spec httpReqSpec, r httpResp) string {
+	m := ridRe.FindStringSubmatch(spec.URL)
+	if m == nil {
+		return ""
+	}
+	text := r.Body
+	for k, v := range r.Headers {
+		text += " " + k + "=" + strings.Join(v, ",")
+	}
+	for _, t := range tagRe.FindAllStringSubmatch(text, -1) {
+		if t[1] != m[1] {
+			return fmt.Sprintf("the response to request r%s contains %q, a value of request r%s", m[1], t[0], t[1])
+		}
+	}
+	return ""
+}
+
 // c11Judge runs the concurrent mode and the alone mode and compares.
 func c11Judge(pool, alonePool *sb.Pool, rec *sb.Rec, c c11Case) *failure {
 	rec.Eval()
@@ -360,6 +390,18 @@ func c11Judge(pool, alonePool *sb.Pool, rec *sb.Rec, c c11Case) *failure {
 			return nil
 		}
 		return &failure{Key: "cell:alone:" + arep.Outcome, Detail: fmt.Sprintf("serving the requests one at a time failed: %s %s %s", arep.Outcome, arep.Site, clip(arep.Msg, 200)), Case: c}
+	}
+	// absolute oracle on the one-at-a-time run: requests served strictly one after another must not
+	// see each other's data either (a value cached from an earlier request)
+	for i := range alone {
+		if i < len(c.Cfg.Reqs) {
+			if why := foreignData(c.Cfg.Reqs[i], alone[i]); why != "" {
+				return &failure{Key: "cell:sequential:foreign-data", Detail: fmt.Sprintf("served one at a time (sources %s): %s\n  response: %s", strings.Join(c.Sources, "+"), why, clip(respString(alone[i]), 400)), Case: c}
+			}
+		}
+	}
+	if c.Cfg.Mode == "alone" {
+		return nil
 	}
 	got, note, rep := c11Exec(pool, c.Cfg)
 	if got == nil {
@@ -453,6 +495,42 @@ func TestC11(t *testing.T) {
 			}
 		}
 	}
+	// (iii) strictly sequential requests, every source (superglobals included): 3 requests with distinct data
+	for si, s1 := range readSrcs {
+		for style := 0; style < 3; style++ {
+			idx++
+			if !cfg.Mine(idx) {
+				continue
+			}
+			hs := []handlerSpec{{Reads: []int{si, si}, Style: style}}
+			c := c11Case{Handlers: hs, Sources: []string{s1.Name}}
+			c.Cfg = httpCfg{Script: serverScript(hs), Mode: "alone", Reqs: []httpReqSpec{requestFor("/h0", 1), requestFor("/h0", 2), requestFor("/h0", 3), requestFor("/h0", 2)}}
+			rec.NonTrivial(c.Cfg.Script, "sequential")
+			rec.Label("sequential:"+s1.Name, c.Cfg.Script)
+			if f := c11Judge(pool, alonePool, rec, c); f != nil {
+				rec.Fail(f.Key+":"+s1.Name, f.Detail, f.Case)
+			}
+		}
+	}
+	// (iv) a closure middleware in front of a gated handler: request 1 is parked inside the handler
+	// (inside the middleware's $next) while request 2 runs through the same middleware
+	for si, s1 := range readSrcs {
+		if s1.Via != "object" {
+			continue
+		}
+		idx++
+		if !cfg.Mine(idx) {
+			continue
+		}
+		hs := []handlerSpec{{Reads: []int{si, si}, Gate: 1, Style: si % 3}}
+		c := c11Case{Handlers: hs, Sources: []string{s1.Name, "middleware"}, MW: true}
+		c.Cfg = httpCfg{Script: serverScript(hs, true), Mode: "gated", Reqs: []httpReqSpec{requestFor("/h0", 1), requestFor("/h0", 2)}}
+		rec.NonTrivial(c.Cfg.Script, "gated-mw")
+		rec.Label("gated:middleware", c.Cfg.Script)
+		if f := c11Judge(pool, alonePool, rec, c); f != nil {
+			rec.Fail(f.Key, f.Detail, f.Case)
+		}
+	}
 	rec.Flush()
 	// main campaign: random handlers, sources not excluded
 	var allowed []int
@@ -513,7 +591,10 @@ func TestC11(t *testing.T) {
 			hs = append(hs, h)
 		}
 		mode := rapid.SampledFrom([]string{"parallel", "parallel", "gated"}).Draw(rt, "mode")
-		c := c11Case{Handlers: hs}
+		c := c11Case{Handlers: hs, MW: rapid.Bool().Draw(rt, "mw")}
+		if c.MW {
+			rec.Label("load:with-middleware", "")
+		}
 		for s := range srcNames {
 			c.Sources = append(c.Sources, s)
 		}
@@ -524,10 +605,10 @@ func TestC11(t *testing.T) {
 				h.Reads = append(h.Reads, h.Reads[0])
 			}
 			h.Gate = rapid.IntRange(1, len(h.Reads)-1).Draw(rt, "gate")
-			c.Cfg = httpCfg{Script: serverScript(hs), Mode: "gated", Reqs: []httpReqSpec{requestFor("/h0", 1), requestFor(fmt.Sprintf("/h%d", rapid.IntRange(0, nh-1).Draw(rt, "broute")), 2)}}
+			c.Cfg = httpCfg{Script: serverScript(hs, c.MW), Mode: "gated", Reqs: []httpReqSpec{requestFor("/h0", 1), requestFor(fmt.Sprintf("/h%d", rapid.IntRange(0, nh-1).Draw(rt, "broute")), 2)}}
 		} else {
 			n := rapid.SampledFrom([]int{2, 3, 8, 16, 64}).Draw(rt, "inflight")
-			c.Cfg = httpCfg{Script: serverScript(hs), Mode: "parallel", Procs: rapid.SampledFrom([]int{1, 2, 4, 16}).Draw(rt, "procs")}
+			c.Cfg = httpCfg{Script: serverScript(hs, c.MW), Mode: "parallel", Procs: rapid.SampledFrom([]int{1, 2, 4, 16}).Draw(rt, "procs")}
 			for i := 0; i < n; i++ {
 				c.Cfg.Reqs = append(c.Cfg.Reqs, requestFor(fmt.Sprintf("/h%d", rapid.IntRange(0, nh-1).Draw(rt, "route")), i+1))
 			}
